@@ -26,8 +26,9 @@ func checkC14(c *Check, a *Anchors) {
 	deferIndexConsistent(c, a)
 	c14DeferCachePerEntry(c, a)
 	discardedErrorValueUsed(c, a, "discarded-error-value-used") // a panic in the deferred-command runner happens inside a Go defer: no further deferred command runs and the process dies
-	sharedWait(c, a) // "before the task's caller continues": a caller that joined a shared execution returns only when that execution — deferred commands included — has finished
-	cmdTemplatedWhole(c, a) // a deferred task call sees .EXIT_CODE and the deferring task's variables only if its name and vars are rendered too
+	sharedWait(c, a)                                            // "before the task's caller continues": a caller that joined a shared execution returns only when that execution — deferred commands included — has finished
+	cmdTemplatedWhole(c, a)                                     // a deferred task call sees .EXIT_CODE and the deferring task's variables only if its name and vars are rendered too
+	extraThreaded(c, a)                                         // .EXIT_CODE reaches the vars of a deferred task call only if every branch of the variable replacer hands the extras on (ref: variables too)
 }
 
 func c14Registration(c *Check, a *Anchors) {
